@@ -462,3 +462,6 @@ def run(ctx):
     r3_rewind_undone(ctx)
     r4_rollback_order(ctx)
     r5_replay_after_accept(ctx)
+    if ctx.tier == "thorough" and ctx.config == "workspace":
+        from .. import witness
+        witness.run(ctx, 'C07-R6', 'rewind-and-patch and sync helpers cannot be called through a read guard', {'PatchNeedsWriteGuard': 'event_patch(req, &mut *read_guard)', 'SyncNeedsWriteGuard': 'sync_account(packet, &mut *read_guard)'})
